@@ -130,7 +130,7 @@ def _install(ctx, decisions=None, run_id=0):
     return w
 
 
-def h_dist_ranges(ctx, kind):
+def h_dist_ranges(ctx, kind, bounds="both"):
     from symx import stubs
     lw = ctx.lw
     d = lw.interferometers.dists
@@ -149,11 +149,17 @@ def h_dist_ranges(ctx, kind):
             dist = d.Constant(lo)
             ctx.check_eq(dist.value(), lo, "constant:value")
         else:
-            dist = d.Gaussian(ctx.real("mu", -2, 2), ctx.real("sigma", 0, 2), lo, hi)
+            use_lo = bounds in ("both", "min")
+            use_hi = bounds in ("both", "max")
+            dist = d.Gaussian(ctx.real("mu", -2, 2), ctx.real("sigma", 0, 2), lo if use_lo else None, hi if use_hi else None)
             dist.set_random_seed(5)
             v = dist.value()
-            ctx.check(ctx.ge(v, lo), "gaussian:value-at-least-min")
-            ctx.check(ctx.le(v, hi), "gaussian:value-at-most-max")
+            if use_lo:
+                ctx.check(ctx.ge(v, lo), f"gaussian:{bounds}:value-at-least-min")
+            if use_hi:
+                ctx.check(ctx.le(v, hi), f"gaussian:{bounds}:value-at-most-max")
+            if not (use_lo or use_hi):
+                ctx.check(True, "gaussian:unbounded-returns-a-value")
     finally:
         stubs.uninstall(ctx.symbolic)
 
@@ -213,6 +219,6 @@ def harnesses(tier):
         ("general-2x2", h_general2, [dict(herald=False), dict(herald=True)], dict(check_timeout_ms=12000, max_seconds=900)),
         ("monomial", h_monomial, mono),
         ("block-diagonal", h_block, [dict()], dict(check_timeout_ms=12000, max_seconds=900)),
-        ("dist-ranges", h_dist_ranges, [dict(kind=k) for k in ("tophat", "constant", "gaussian")]),
+        ("dist-ranges", h_dist_ranges, [dict(kind=k) for k in ("tophat", "constant")] + [dict(kind="gaussian", bounds=b) for b in ("both", "min", "max", "none")]),
         ("noisy-mapping", h_noisy_mapping, [dict(which=w) for w in ("tophat", "gaussian")], dict(check_timeout_ms=60000)),
     ]
